@@ -6,7 +6,13 @@ back to coq/gen_default and relies on the differential correspondence):
   c_scope          where the DeterministicExecutor (workflow identity + operation counters) is kept:
                    on the WorkflowContext (`self._x = DeterministicExecutor(...)`) which Task.wf caches per
                    Task object (functools.cached_property)  -> PerTaskObject;
-                   on the running invocation object (`inv = self.task.invocation; inv._x = ...`) -> PerExecution.
+                   on the running invocation object (`inv = self.task.invocation; inv._x = ...`) -> PerExecution;
+                   in a container (attribute of the context, module-level or class-level variable; dict or
+                   weak dict) looked up / stored by the invocation object or its invocation_id (`C.get(inv)`,
+                   `C[inv.invocation_id] = ...`, `C.setdefault(inv, ...)`) -> PerInvocationKey (invocation
+                   objects hash and compare by id: every attempt of the invocation in the process finds it).
+  c_exec_private   execute_task (and the helper methods it calls) touches no class-level attribute, module-level
+                   variable or global: the only memory of launched sub-tasks is the workflow data.
   c_seed_wf        the seed f-strings of random() and uuid() contain self.workflow_identity.workflow_id
   c_task_key_call  the execute_task record key f-string contains call.call_id
   c_seq_offset     `sequence = self._operation_counters.get(<op>, 0) + K` inside the generators (K)
@@ -109,9 +115,36 @@ def executor_scope(task_src: str, ctx_src: str) -> tuple[str, dict]:
         raise TranslateError("WorkflowContext.deterministic is not a plain property")
     body = _strip_doc(det.body)
     aliases: dict[str, str] = {}        # local name -> what it denotes ("invocation" | "executor")
-    holder = None                        # "context" | "invocation"
+    holder = None                        # "context" | "invocation" | "keyed"
     held_attr = None
     constructed = False
+    ctx_tree = ast.parse(ctx_src)
+    module_vars = {t.id for n in ctx_tree.body if isinstance(n, ast.Assign | ast.AnnAssign) and getattr(n, "value", None) is not None
+                   for t in (n.targets if isinstance(n, ast.Assign) else [n.target]) if isinstance(t, ast.Name)}
+    container = None
+
+    def is_container(n: ast.AST) -> str | None:
+        d = _dotted(n)
+        if isinstance(n, ast.Name) and n.id in module_vars and n.id not in aliases:
+            return f"module-level {n.id}"
+        if d and d.startswith("self.") and d.count(".") == 1 and d != "self.task":
+            return f"context attribute {d}"
+        if d and (d.startswith("WorkflowContext.") or d.startswith("self.__class__.")) and d.count(".") <= 2:
+            return f"class-level {d}"
+        return None
+
+    def is_key(n: ast.AST) -> bool:
+        return is_invocation(n) or (isinstance(n, ast.Attribute) and n.attr in ("invocation_id", "invocation_id_str")
+                                    and is_invocation(n.value))
+
+    def keyed_lookup(n: ast.AST) -> str | None:
+        """C.get(K[, None]) | C[K] | C.setdefault(K, <ctor>)  ->  description of C"""
+        if isinstance(n, ast.Subscript) and is_key(n.slice):
+            return is_container(n.value)
+        if isinstance(n, ast.Call) and isinstance(n.func, ast.Attribute) and n.func.attr in ("get", "setdefault", "pop") \
+                and n.args and is_key(n.args[0]):
+            return is_container(n.func.value)
+        return None
 
     def is_invocation(n: ast.AST) -> bool:
         return _dotted(n) == "self.task.invocation" or (isinstance(n, ast.Name) and aliases.get(n.id) == "invocation")
@@ -128,7 +161,7 @@ def executor_scope(task_src: str, ctx_src: str) -> tuple[str, dict]:
         return True
 
     def visit(stmts):
-        nonlocal holder, held_attr, constructed
+        nonlocal holder, held_attr, constructed, container
         for s in stmts:
             if isinstance(s, ast.If):
                 visit(s.body)
@@ -146,6 +179,13 @@ def executor_scope(task_src: str, ctx_src: str) -> tuple[str, dict]:
                           and is_invocation(val.args[0]) and isinstance(val.args[1], ast.Constant)):
                         aliases[tgt.id] = "executor"
                         held_attr = held_attr or val.args[1].value
+                    elif keyed_lookup(val):
+                        aliases[tgt.id] = "executor"
+                        container = container or keyed_lookup(val)
+                        if isinstance(val, ast.Call) and val.func.attr == "setdefault":
+                            if len(val.args) == 2 and is_ctor(val.args[1]):
+                                constructed = True
+                            holder = "keyed"
                     else:
                         raise TranslateError("unrecognised local assignment in WorkflowContext.deterministic")
                 elif isinstance(tgt, ast.Attribute):
@@ -160,6 +200,12 @@ def executor_scope(task_src: str, ctx_src: str) -> tuple[str, dict]:
                         holder, held_attr = "invocation", tgt.attr
                     else:
                         raise TranslateError("executor stored on an unrecognised object")
+                elif isinstance(tgt, ast.Subscript) and is_key(tgt.slice) and is_container(tgt.value):
+                    if is_ctor(val):
+                        constructed = True
+                    elif not (isinstance(val, ast.Name) and aliases.get(val.id) == "executor"):
+                        raise TranslateError("keyed store of something that is not the executor")
+                    holder, container = "keyed", is_container(tgt.value)
                 else:
                     raise TranslateError("unrecognised assignment target")
             elif isinstance(s, ast.Expr) and isinstance(s.value, ast.Call) and _dotted(s.value.func) == "setattr":
@@ -172,7 +218,8 @@ def executor_scope(task_src: str, ctx_src: str) -> tuple[str, dict]:
                 v = s.value
                 ok = (isinstance(v, ast.Name) and aliases.get(v.id) == "executor") or \
                      (isinstance(v, ast.Attribute) and v.attr == held_attr
-                      and (_dotted(v.value) == "self" or is_invocation(v.value)))
+                      and (_dotted(v.value) == "self" or is_invocation(v.value))) or \
+                     (holder == "keyed" and keyed_lookup(v) is not None)
                 if not ok:
                     raise TranslateError("WorkflowContext.deterministic returns something unrecognised")
             else:
@@ -182,6 +229,9 @@ def executor_scope(task_src: str, ctx_src: str) -> tuple[str, dict]:
     if not constructed or holder is None:
         raise TranslateError("executor construction / holder not found")
     info = {"wf_context_per": ctx_per, "executor_held_by": holder, "attr": held_attr}
+    if holder == "keyed":
+        info["container"] = container
+        return "PerInvocationKey", info
     if holder == "invocation":
         return "PerExecution", info
     if ctx_per == "task_object":
@@ -267,8 +317,9 @@ def executor_facts(det_src: str) -> dict:
         raise TranslateError("execute_task: unexpected workflow data accesses")
     tparts = _fstring_parts(_find_assign(ex, "task_invocation_key"))
     shapes = {n: _shape(_method(cls, n)) for n in EXPECTED_SHAPES}
-    private, why_shared = generators_private(ast.parse(det_src), cls)
+    private, why_shared, xprivate, why_xshared = generators_private(ast.parse(det_src), cls)
     return {"replay_uncond": replay_unconditional(ex), "gen_private": private, "gen_shared_state": why_shared,
+            "exec_private": xprivate, "exec_shared_state": why_xshared,
             "seed_wf": seeds["random"] and seeds["uuid"], "seed_wf_random": seeds["random"], "seed_wf_uuid": seeds["uuid"],
             "task_key_call": "expr:call.call_id" in tparts, "seq_offset": offsets.pop(), "shapes": shapes}
 
@@ -299,10 +350,14 @@ def replay_unconditional(ex: ast.FunctionDef) -> bool:
     if len(branches) != 1:
         raise TranslateError("execute_task: replay branch `if <recorded id> is not None:` not found")
     br = branches[0]
-    if br.orelse:
-        raise TranslateError("execute_task: replay branch has an else part")
     straight = not any(isinstance(x, _COMPOUND) for st in br.body for x in ast.walk(st))
     returns = bool(br.body) and isinstance(br.body[-1], ast.Return) and br.body[-1].value is not None
+    if br.orelse:
+        # `if recorded: <replay> else: <launch + record>` followed by common code: the replay is unconditional
+        # when its branch is straight-line code that does not launch (no call of the task)
+        launches = any(isinstance(x, ast.Call) and isinstance(x.func, ast.Name) and x.func.id == "task"
+                       for st in br.body for x in ast.walk(st))
+        return straight and not launches
     if straight and not returns:
         raise TranslateError("execute_task: straight-line replay branch does not return")
     return straight and returns
@@ -330,8 +385,9 @@ def _walk_code(node: ast.AST):
 _GLOBAL_RNG_OK = {"Random", "SystemRandom"}
 
 
-def generators_private(tree: ast.Module, cls: ast.ClassDef) -> tuple[bool, list[str]]:
-    """(private?, reasons).  Raises TranslateError on names it cannot classify."""
+def generators_private(tree: ast.Module, cls: ast.ClassDef) -> tuple[bool, list[str], bool, list[str]]:
+    """(generators private?, reasons, execute_task private?, reasons).  Raises TranslateError on names it
+    cannot classify."""
     modules, mod_vars, mod_defs = set(), set(), set()
     for n in tree.body:
         if isinstance(n, ast.Import):
@@ -383,6 +439,8 @@ def generators_private(tree: ast.Module, cls: ast.ClassDef) -> tuple[bool, list[
                 local.add(m.name)
             elif isinstance(m, ast.arg):
                 local.add(m.arg)
+            elif isinstance(m, ast.Import | ast.ImportFrom):        # function-level import: a module / class name
+                local |= {(a.asname or a.name).split(".")[0] for a in m.names}
         for m in _walk_code(fn):
             if isinstance(m, ast.Global | ast.Nonlocal):
                 reasons.append(f"{fn.name}: {type(m).__name__.lower()} {', '.join(m.names)}")
@@ -422,11 +480,15 @@ def generators_private(tree: ast.Module, cls: ast.ClassDef) -> tuple[bool, list[
 
     for name in ("random", "utc_now", "uuid"):
         check(_method(cls, name), set())
-    return (not reasons), sorted(set(reasons))
+    gen_reasons = sorted(set(reasons))
+    reasons.clear()
+    visited.clear()
+    check(_method(cls, "execute_task"), set())
+    return (not gen_reasons), gen_reasons, (not reasons), sorted(set(reasons))
 
 
 def emit(scope: str, seed_wf: bool, task_key_call: bool, seq_offset: int, replay_uncond: bool = True,
-         gen_private: bool = True) -> str:
+         gen_private: bool = True, exec_private: bool = True) -> str:
     b = lambda x: "true" if x else "false"  # noqa: E731
     return "\n".join([
         "(* GENERATED by harness/translate/workflow.py from pynenc/workflow/workflow_context.py,",
@@ -436,7 +498,7 @@ def emit(scope: str, seed_wf: bool, task_key_call: bool, seq_offset: int, replay
         "Definition gen_cfg : cfg :=",
         f"  {{| c_scope := {scope}; c_seed_wf := {b(seed_wf)}; c_task_key_call := {b(task_key_call)};",
         f"     c_seq_offset := {int(seq_offset)}; c_replay_uncond := {b(replay_uncond)};",
-        f"     c_gen_private := {b(gen_private)} |}}.",
+        f"     c_gen_private := {b(gen_private)}; c_exec_private := {b(exec_private)} |}}.",
         "",
     ])
 
@@ -451,7 +513,8 @@ def translate(repo: str) -> tuple[str, dict]:
         raise TranslateError("sequence offset out of the modelled range")
     info = {"scope": scope, **sinfo, **{k: v for k, v in f.items() if k != "shapes"}, "shapes": f["shapes"],
             "shape_changed": sorted(k for k, v in EXPECTED_SHAPES.items() if f["shapes"].get(k) != v)}
-    return emit(scope, f["seed_wf"], f["task_key_call"], f["seq_offset"], f["replay_uncond"], f["gen_private"]), info
+    return emit(scope, f["seed_wf"], f["task_key_call"], f["seq_offset"], f["replay_uncond"], f["gen_private"],
+                f["exec_private"]), info
 
 
 if __name__ == "__main__":
